@@ -251,6 +251,9 @@ func (i *introspectionVisitor) EnterScalarTypeDefinition(ref int) {
 		return
 	}
 
+	if argValue.Kind != ast.ValueKindString {
+		return
+	}
 	url := i.definition.ValueContentString(argValue)
 	typeDefinition.SpecifiedByURL = &url
 }
@@ -402,6 +405,10 @@ func (i *introspectionVisitor) TypeRef(typeRef int) TypeRef {
 func (i *introspectionVisitor) deprecationReason(directiveRef int) (reason *string) {
 	argValue, exists := i.definition.DirectiveArgumentValueByName(directiveRef, []byte(DeprecationReasonArgName))
 	if exists {
+		// reason is a nullable String: `@deprecated(reason: null)` has no reason
+		if argValue.Kind != ast.ValueKindString {
+			return nil
+		}
 		reasonContent := i.definition.ValueContentString(argValue)
 		return &reasonContent
 	}
